@@ -428,6 +428,16 @@ func Substr(s, off, n *Term) *Term {
 	if off.isSmallInt() && off.Int == 0 && n.Kind == KApp && n.Op == "str.len" && same(n.Args[0], s) {
 		return s
 	}
+	// prefix of a concatenation whose length is the sum of the lengths of the first parts
+	if off.isSmallInt() && off.Int == 0 && s.Kind == KApp && s.Op == "str.++" {
+		acc := IntLit(0)
+		for m, part := range s.Args {
+			acc = Add(acc, StrLen(part))
+			if same(acc, n) {
+				return StrCat(s.Args[:m+1]...)
+			}
+		}
+	}
 	return App("str.substr", SString, s, off, n)
 }
 
